@@ -48,7 +48,13 @@ def _verify_one(key: str) -> Dict[str, Any]:
             d["model"] = rp.describe_model(o)
             d["replay"] = rp.try_replay(c, o, r)
         obs.append(d)
-    return {"key": key, "status": r.status, "message": r.message, "obligations": obs, "paths": r.paths,
+    bat = None
+    if r.status != "ok" and key in rp.BATTERIES:
+        try:
+            bat = rp.BATTERIES[key]()
+        except Exception as e:
+            bat = {"reproduced": False, "reason": f"battery error {type(e).__name__}: {e}"}
+    return {"key": key, "status": r.status, "message": r.message, "obligations": obs, "paths": r.paths, "battery": bat,
             "time_exec": round(r.time_exec, 3), "time_solve": round(r.time_solve, 3), "source_hash": r.source_hash,
             "lineno": r.lineno, "assumed": {k: v.why for k, v in r.used_assumed.items()},
             "contracts_used": sorted(r.used_contracts), "inlined": r.inlined, "feas_checks": r.feas_checks,
@@ -152,9 +158,20 @@ def main(argv=None) -> int:
             broken.append(f"{r['key']}: {r['message']}")
             continue
         if r["status"] != "ok":
-            undecided.append(f"{r['key']}: {r['status']} {r['message']}")
             not_verified.append(r["key"])
+            bat = r.get("battery") or {}
+            if bat.get("reproduced"):
+                # the function left the verified subset, but its contract fails natively on a concrete input
+                violations.append((r["key"], {"name": f"{r['key']}::post[battery]", "info": bat.get("expected"), "replay": bat,
+                                             "backend": "native", "result": f"undecided by the verifier ({r['message'][:200]}); "
+                                             "the contract fails on a concrete input", "path": []}))
+                n_ob += 1
+            else:
+                undecided.append(f"{r['key']}: {r['status']} {r['message']}")
             continue
+        # a failed precondition of a callee is assumed afterwards: what follows it may then be contradictory, which is a
+        # consequence of the reported failure and not a vacuous contract
+        pre_failed = any(o["kind"] == "pre" and not o["ok"] and o["result"] == "sat" for o in r["obligations"])
         for o in r["obligations"]:
             n_ob += 1
             b = by_backend.setdefault(o["backend"] or "z3-api", {"count": 0, "seconds": 0.0})
@@ -171,7 +188,9 @@ def main(argv=None) -> int:
                     samples.append({"obligation": o["name"], "clause": o["info"][:200], "verdict": "unsat (discharged)", "backend": o["backend"]})
                 continue
             if o["kind"] == "cover":
-                if o["result"] == "unsat":
+                if o["result"] == "unsat" and pre_failed:
+                    n_ob -= 1
+                elif o["result"] == "unsat":
                     broken.append(f"vacuous: {o['name']} (the assumptions at this point are contradictory)")
                 else:
                     # reachability could not be decided within the budget: the guard is inconclusive, not failed
